@@ -124,9 +124,13 @@ class FormatSpec(c01.ProgSpec):
         import copy
         import pickle
         from xdoctest import core
-        for L in (1, 41):
+        # ... and the same docstring behind a block that freeform extraction must skip (prompts with a want under "Ignore:")
+        pre = ['Ignore:', '    >>> ig = 1', '    >>> ig', '    1', '', 'Some prose.', '']
+        ptext = '\n'.join((' ' * m + l) if l else l for l in pre) + '\n' + text
+        variants = [(1, text, doclines), (41, text, doclines), (1, ptext, pre + doclines), (41, ptext, pre + doclines)]
+        for L, text_, doclines in variants:
             try:
-                exs = list(core.parse_docstr_examples(text, callname='f', modpath=None, lineno=L, style='freeform'))
+                exs = list(core.parse_docstr_examples(text_, callname='f', modpath=None, lineno=L, style='freeform'))
             except Exception as ex:
                 atoms.append({'sig': 'extract:raises:' + type(ex).__name__, 'msg': repr(ex)})
                 break
